@@ -114,18 +114,35 @@ def write_h5ad(path, X, cell_names, gene_names, enc='dense', obs_extra=None, lay
         X = sp.csr_matrix(X)
     elif enc == 'csc':
         X = sp.csc_matrix(X)
+    chunks = None
+    if isinstance(enc, str) and enc.startswith('dense_chunked'):
+        # dense matrix stored in HDF5 chunks that are wider than tall: 'dense_chunked' -> (2, 5)
+        chunks = (2, 5)
     if layer is None:
         a = anndata.AnnData(X=X, obs=obs, var=var)
     else:
         a = anndata.AnnData(X=None, obs=obs, var=var, layers={layer: X})
     a.write_h5ad(path)
+    if chunks is not None:
+        key = 'X' if layer is None else f'layers/{layer}'
+        with h5py.File(path, 'a') as f:
+            ds = f[key]
+            data = ds[()]
+            attrs = dict(ds.attrs)
+            del f[key]
+            new = f.create_dataset(key, data=data, chunks=tuple(min(c, n) for c, n in zip(chunks, data.shape)))
+            for k, v in attrs.items():
+                new.attrs[k] = v
 
 
 def write_stats(path, tree_dict, means, gene_names, n_cells=None, extra=False):
     """hand-written precomputed-stats file: what the mapper reads (metadata, cluster_to_row,
     col_names, taxonomy_tree, n_cells, sum).  means: leaf name -> vector."""
-    leaves = sorted(means.keys())
-    c2r = {l: i for i, l in enumerate(leaves)}
+    names = sorted(means.keys())
+    # the file addresses its rows through its own table: rows are stored in REVERSE name order while the table
+    # lists the names in ascending order, so neither sorted order nor position in the table gives the row
+    c2r = {l: len(names) - 1 - i for i, l in enumerate(names)}
+    leaves = sorted(names, key=lambda l: c2r[l])          # leaves[r] = cluster stored in row r
     n = np.array([(n_cells or {}).get(l, 1) for l in leaves])
     S = np.array([np.array(means[l], dtype=float) * n[i] for i, l in enumerate(leaves)])
     if S.ndim == 1:
